@@ -208,3 +208,19 @@ package tchannel
 //@   label receiving-half-reports-nothing
 //@   atcall End item.isOriginator
 //@   property C09
+
+// ---------------------------------------------------------------------------
+// frames the relay generates itself (re-fragmentation after an arg2 append)
+// ---------------------------------------------------------------------------
+
+// Every fragment built for a forwarded call req -- the first and every
+// continuation -- carries the call req's (remapped, destination-side) message
+// id and the type of its position, so that frames of one call never land in
+// another call's exchange on the destination connection.
+//@ func (rfs *relayFragmentSender) newFragment(initial bool, checksum Checksum) (wf *writableFragment, err error)
+//@   label generated-fragments-carry-the-remapped-id
+//@   ensures wf.frame.Header.ID == old(rfs.callReq.Frame.Header.ID)
+//@   label generated-fragments-carry-the-position-type
+//@   ensures initial ==> wf.frame.Header.messageType == messageTypeCallReq
+//@   ensures !initial ==> wf.frame.Header.messageType == messageTypeCallReqContinue
+//@   property C04 C08
